@@ -1,1 +1,59 @@
-From Cocls Require Import Base GenDefs AggrDefs.
+(* Properties_C14.v — C14: generator_aggregator = union of all sources, per-source order preserved.
+   Only statements; every proof is `exact <lemma of AggrProofs>`.
+   Quantification: any number of sources (a list), any scripts, any op list = any access sequence and any completion
+   schedule (position and order of the Complete ops), malformed ops included; both generator<T> and generator<T,Arg>. *)
+From Cocls Require Import Base BaseProofs GenDefs GenProofs AggrDefs AggrProofs.
+
+(* accounting: in every reachable state every active source is exactly one of: queued, in flight, or the one whose
+   value the consumer holds (count = |queue| + #suspended + [parked at a yield]) *)
+Theorem c14_accounting : forall ha ops, AInv (snd (run_from ha agg0 ops)).
+Proof. exact aggr_accounting. Qed.
+Print Assumptions c14_accounting.
+
+(* the loop: every iteration that does not stop retires one source and consumes one completion; a yield hands out
+   the current value of a queued, unfinished, non-throwing source; the loop stops waiting only with an empty queue
+   and ends only with count = 0 *)
+Theorem c14_loop_accounting : forall l q c x,
+  let '(o, q', c', x') := agg_loop l q c x in
+  c' + length q = c + length q' + is_yield o /\
+  (o = OWait -> q' = [] /\ c' > 0) /\
+  (match o with OThrow _ | ORet => c' = 0 | _ => True end) /\
+  (forall j, In j q' -> In j q) /\
+  (forall i v, o = OYield i v -> In i q /\ s_ret (get_src l i) = Some v /\ s_done (get_src l i) = false /\ s_exn (get_src l i) = None).
+Proof. exact agg_loop_acc. Qed.
+Print Assumptions c14_loop_accounting.
+
+(* ends_iff_all_ended (only-if): the aggregate ends only when no source is active, queued or in flight *)
+Theorem c14_end_means_all_ended : forall ha ops,
+  let g := snd (run_from ha agg0 ops) in
+  ast g = AFinal -> count g = 0 /\ queue g = [] /\ npend (srcs g) = 0.
+Proof. exact aggr_end_means_all_ended. Qed.
+Print Assumptions c14_end_means_all_ended.
+
+(* exception_kept: a remembered source exception is never forgotten, it is thrown to the consumer only when no source
+   is active any more (so the other sources' values came first), and the normal end needs no remembered exception *)
+Theorem c14_exception_kept : forall l q c x,
+  let '(o, _, c', x') := agg_loop l q c x in
+  (x <> None -> x' <> None) /\
+  (forall e, o = OThrow e -> c' = 0 /\ x' = Some e) /\
+  (o = ORet -> c' = 0 /\ x' = None /\ x = None).
+Proof. exact agg_loop_exception. Qed.
+Print Assumptions c14_exception_kept.
+
+(* destroy_parked: the destructor of an aggregate parked at a yield pops the whole completion queue and then needs
+   exactly one completion per source still in flight; it blocks iff there is one, and then a Complete op is enabled *)
+Theorem c14_destroy_parked : forall ha ops i,
+  let g := snd (run_from ha agg0 ops) in
+  ast g = AYield i ->
+  let '(q1, c1, blocked) := drain (queue g) (count g) in
+  q1 = [] /\ c1 = npend (srcs g) + 1 /\
+  (blocked = true <-> npend (srcs g) > 0) /\
+  (blocked = true -> exists j, j < length (srcs g) /\ pendb (nth j (srcs g) (src0 [])) = true).
+Proof. exact aggr_destroy_exact. Qed.
+Print Assumptions c14_destroy_parked.
+
+Theorem c14_destroy_progress : forall ha ops,
+  let g := snd (run_from ha agg0 ops) in
+  ast g = ADying -> count g = npend (srcs g) + 1 /\ queue g = [] /\ npend (srcs g) > 0.
+Proof. exact aggr_dying_accounting. Qed.
+Print Assumptions c14_destroy_progress.
